@@ -79,8 +79,10 @@ def gen_case(rng, tier, i):
         partial = rng.choice([[nm[:k] + '*'], ['*' + nm[k:]], [nm], ['*.' + nm.rsplit('.', 1)[1]], []])
     gpaths = sorted({cc['path'].rsplit('.', 1)[0] for cc in spec['comps'] if '.' in cc['path']})
     subrec = [g for g in gpaths if rng.random() < 0.5]
+    # only_sub: the file is written by sub-group recorders alone (its promoted names are group-relative)
+    only_sub = bool(subrec) and len(subrec) == 1 and rng.random() < 0.5
     return {'spec': spec, 'driver': driver, 'runs': runs, 'partial': partial, 'lagging': lagging,
-            'sub_recorders': subrec,
+            'sub_recorders': subrec, 'only_sub': only_sub,
             'ncases': (6 if lagging else 4) if tier == 'quick' else 8,
             'seed': rng.randrange(10 ** 6)}
 
